@@ -118,6 +118,7 @@ class World:
         self.steps = 0
         self.removed = []
         self.written = {}
+        self.fds = {}
         self.dirs = set(dirs) | {path} | {_pp.join(path, d) for d in self.subdirs}
 
     # ---- fault injection
@@ -178,9 +179,17 @@ class _RFile:
 
 
 class _WFile:
-    def __init__(self, world, path):
+    """file object open for writing.  truncated=False models a descriptor opened without O_TRUNC: what the file held
+    before stays behind whatever is written now (event "stale_tail" at close) unless truncate() is called."""
+    def __init__(self, world, path, truncated=True):
         self.w, self.path, self.closed = world, path, False
+        self.truncated = truncated
+        self.had_content = bool(world._lookup(path)) or bool(world.written.get(path))
         self.w.written[path] = []
+
+    def truncate(self, size=None):
+        self.truncated = True
+        return 0
 
     def writelines(self, s):
         self.w._step("write")
@@ -196,6 +205,8 @@ class _WFile:
         if not self.closed:
             self.closed = True
             self.w._step("close")
+            if not self.truncated and self.had_content:
+                self.w.events.append(("stale_tail", self.path))
             self.w.events.append(("close", self.path))
 
     def __enter__(self):
@@ -291,8 +302,26 @@ class FakeOs:
 
     # low-level descriptor calls: recorded, harmless (a tool may re-point its stdout, e.g. to /dev/null)
     def open(self, path, flags=0, *a, **k):
+        import os as _os
+        fd = 1000 + len(self.w.events)
+        if flags & (_os.O_WRONLY | _os.O_RDWR) and path != _os.devnull:
+            # a regular file opened for writing through a descriptor
+            self.w._step("open")
+            self.w.events.append(("open_w", path))
+            self.w.fds[fd] = [path, bool(flags & _os.O_TRUNC)]
+            return fd
         self.w.events.append(("os_open", path))
-        return 1000 + len(self.w.events)
+        return fd
+
+    def fdopen(self, fd, mode="r", *a, **k):
+        if fd not in self.w.fds:
+            raise OSError(9, "Bad file descriptor")
+        path, trunc = self.w.fds[fd]
+        return _WFile(self.w, path, truncated=trunc)
+
+    def ftruncate(self, fd, length):
+        if fd in self.w.fds:
+            self.w.fds[fd][1] = True
 
     def dup2(self, fd, fd2, *a, **k):
         self.w.events.append(("dup2", fd, fd2))
